@@ -14,6 +14,7 @@ beyond "a node with <= count_ubound points is not split" is not asserted: the
 tree *shape* is read from the real tree and validated, never predicted.
 """
 import copy
+import json
 import itertools
 import math
 import sys
@@ -26,6 +27,7 @@ import numpy as np
 from menelaus.partitioners.KDQTreePartitioner import KDQTreePartitioner
 
 from mc.explorer import Ctx, System, Violation, artefact, jsonable, run_path, HarnessError
+from mc import procstate
 from mc.numeric import close
 from models.kdq import Counts, ModelTree, ShapeError, corrected, kl_counts, kss
 
@@ -788,6 +790,172 @@ SYS = PartSys()
 SYSTEMS = {SYS.name: SYS}
 
 
+# ------------------------------------------------------------------ round 5: two partitioners in one process
+# State that the class keeps OUTSIDE a partitioner object (a class-level set of "tree ids that already hold counts", a
+# module-level memo) is invisible while one object is built and filled; it shows when a second partitioner is built or
+# filled BETWEEN two operations of the first.  One event = one whole program: the operation lists of two partitioners
+# (build, fill, fill with / without reset) in one interleaving.  Oracle (differential, no expected values): after every
+# operation of either object its public read-outs — leaf_counts of every id it has filled, kl_distance of every ordered
+# pair of them — must equal, bit for bit, the read-outs of the same object after the same operations run ALONE in a
+# pristine process state.  Every program and every solo run starts from mc.procstate.reset().
+
+PAIR_POINTS = {
+    1: {"lo": [[0.0], [1.0], [1.0], [3.0]], "hi": [[2.0], [3.0], [3.0], [0.5]], "mid": [[1.0], [2.0], [0.0]],
+        "far": [[3.0], [3.0], [2.5], [2.0], [0.0]]},
+    2: {"lo": [[0.0, 0.0], [1.0, 2.0], [2.0, 1.0], [0.0, 2.0]], "hi": [[2.0, 2.0], [2.0, 1.0], [1.0, 1.0], [0.0, 1.0]],
+        "mid": [[1.0, 1.0], [1.0, 0.0], [2.0, 0.0]], "far": [[2.0, 2.0], [2.0, 2.0], [0.0, 0.0], [1.0, 2.0], [2.0, 0.0]]},
+}
+
+
+def _interleavings(na, nb):
+    if na == 0:
+        yield [1] * nb
+        return
+    if nb == 0:
+        yield [0] * na
+        return
+    for rest in _interleavings(na - 1, nb):
+        yield [0] + rest
+    for rest in _interleavings(na, nb - 1):
+        yield [1] + rest
+
+
+def _pair_readout(kp, ids):
+    out = {}
+    for i in ids:
+        try:
+            out["counts:" + i] = [int(c) for c in kp.leaf_counts(i)]
+        except Exception as e:  # noqa
+            out["counts:" + i] = "raised %s" % type(e).__name__
+    for i in ids:
+        for j in ids:
+            if i != j:
+                try:
+                    out["kl:%s|%s" % (i, j)] = float(kp.kl_distance(i, j)).hex()
+                except Exception as e:  # noqa
+                    out["kl:%s|%s" % (i, j)] = "raised %s" % type(e).__name__
+    return out
+
+
+def _pair_apply(cfg, kp, op, ids):
+    data = np.array(PAIR_POINTS[cfg["dim"]][op[1]], dtype=float)
+    if op[0] == "build":
+        kp.build(data)
+        ids[:] = ["build"]
+    else:
+        kp.fill(data, op[2], reset=bool(op[3]))
+        if op[2] not in ids:
+            ids.append(op[2])
+
+
+def _pair_solo(cfg, ops):
+    procstate.reset()
+    kp = KDQTreePartitioner(count_ubound=cfg["count_ubound"], cutpoint_proportion_lbound=cfg["lbound"])
+    ids, trace = [], []
+    for op in ops:
+        _pair_apply(cfg, kp, op, ids)
+        trace.append(_pair_readout(kp, ids))
+    return trace
+
+
+class PartPairSys(System):
+    name = "PartitionerPair"
+
+    def init(self, cfg):
+        return {"solo": {}}
+
+    def alphabet(self, cfg, state, pos):
+        return []  # programs are handed over as task prefixes / by pair_programs_task
+
+    def step(self, cfg, state, ev, pos, ctx):
+        lists = [ev["a"], ev["b"]]
+        solo = []
+        for ops in lists:
+            k = json.dumps(ops)
+            if k not in state["solo"]:
+                state["solo"][k] = _pair_solo(cfg, ops)
+            solo.append(state["solo"][k])
+        procstate.reset()
+        kps = [KDQTreePartitioner(count_ubound=cfg["count_ubound"], cutpoint_proportion_lbound=cfg["lbound"]) for _ in (0, 1)]
+        ids = [[], []]
+        done = [0, 0]
+        for who in ev["order"]:
+            op = lists[who][done[who]]
+            _pair_apply(cfg, kps[who], op, ids[who])
+            done[who] += 1
+            ctx.count("pair_operations")
+            if done[1 - who] and done[who] > 1:
+                ctx.count("pair_operation_after_the_other_object_was_used_in_between")
+            for w in (0, 1):  # the object that moved and the one that did not
+                if not done[w]:
+                    continue
+                got = _pair_readout(kps[w], ids[w])
+                exp = solo[w][done[w] - 1]
+                if got != exp:
+                    diff = sorted(k for k in exp if got.get(k) != exp[k])
+                    raise Violation(
+                        "pair-differs-from-solo",
+                        "two partitioners in one process: after %r of partitioner %s (program order %r, a=%r, b=%r) the read-outs %r of "
+                        "partitioner %s differ from the same operations run alone: %r vs alone %r"
+                        % (op, "ab"[who], ev["order"], ev["a"], ev["b"], diff, "ab"[w], {k: got.get(k) for k in diff},
+                           {k: exp[k] for k in diff}),
+                        expected=exp, observed=got, sig="pair-differs-from-solo:%s" % ("moved" if w == who else "untouched"))
+                ctx.count("pair_readouts_compared_with_solo")
+        ctx.mark("pair_programs")
+        return {"ok": True}
+
+
+PAIRSYS = PartPairSys()
+SYSTEMS[PAIRSYS.name] = PAIRSYS
+
+
+def _pair_programs(tier):
+    sets = ["lo", "hi", "mid"] + (["far"] if tier != "quick" else [])
+    progs = []
+    for ba in sets:
+        for fa1 in sets:
+            for fa2 in sets:
+                for ra in (0, 1):
+                    a = [["build", ba], ["fill", fa1, "t", 0], ["fill", fa2, "t", ra]]
+                    for bb in sets:
+                        for fb in sets:
+                            for rb in (0, 1):
+                                b = [["build", bb], ["fill", fb, "t", rb]]
+                                for order in _interleavings(3, 2):
+                                    progs.append({"a": a, "b": b, "order": order})
+    return progs
+
+
+def pair_programs_task(task, seed):
+    import time as _t
+
+    from mc.explorer import Ctx, artefact
+
+    t0 = _t.time()
+    cfg = task["cfg"]
+    ctx = Ctx(seed)
+    state = PAIRSYS.init(cfg)
+    viol, shown = [], {}
+    progs = _pair_programs(task["tier"])
+    lo, hi = task["chunk"]
+    n = 0
+    for ev in progs[lo:hi]:
+        n += 1
+        try:
+            PAIRSYS.step(cfg, state, ev, 0, ctx)
+        except Violation as v:
+            ctx.count("violations_raw")
+            ctx.count("sig:" + str(v.sig))
+            shown[v.sig] = shown.get(v.sig, 0) + 1
+            if shown[v.sig] <= 3:
+                viol.append(artefact(PROPERTY, PAIRSYS, cfg, seed, [ev], v))
+    st = dict(ctx.stats)
+    st.update(states=n, transitions=n, executions=n, nontrivial_executions=st.get("pair_programs", 0))
+    return {"stats": st, "violations": viol,
+            "samples": [{"system": PAIRSYS.name, "cfg": cfg, "events": progs[lo:lo + 1], "nontrivial_events": 1}],
+            "wall": _t.time() - t0}
+
+
 # ------------------------------------------------------------- enumeration
 
 
@@ -1179,8 +1347,22 @@ def _round3_tasks(tier):
     return out
 
 
+def _pair_tasks(tier):
+    out = []
+    nprog = len(_pair_programs(tier))
+    for dim in (1, 2):
+        for ub, lb in ((1, 0.25), (2, 2e-10)):
+            cfg = {"id": "pair%dd-ub%d-lb%g" % (dim, ub, lb), "dim": dim, "count_ubound": ub, "lbound": lb}
+            per = 1200
+            for lo in range(0, nprog, per):
+                out.append({"fn": "pair_programs_task", "system": PAIRSYS.name, "cfg": cfg, "tier": tier,
+                            "chunk": [lo, min(nprog, lo + per)],
+                            "label": "%s|%s|%d-%d" % (PAIRSYS.name, cfg["id"], lo, min(nprog, lo + per)), "cost": 3000})
+    return out
+
+
 def tasks(tier, seed):
-    out = _round3_tasks(tier)
+    out = _round3_tasks(tier) + _pair_tasks(tier)
     cid = 0
     for dim, fams, sizes in ((1, FAMILIES_1D, range(1, 7)), (2, FAMILIES_2D, range(1, 5))):
         for fam in fams:
@@ -1206,6 +1388,9 @@ def tasks(tier, seed):
 
 
 REQUIRED = [
+    "pair_programs",
+    "pair_operation_after_the_other_object_was_used_in_between",
+    "pair_readouts_compared_with_solo",
     "trees",
     "trees_with_split",
     "trees_with_7plus_nodes",
@@ -1275,6 +1460,12 @@ def describe(tier):
             "cutpoint_proportion_lbound": list(LBS),
             "fill_alphabet": "sets %s x ids %s x reset {F,T}" % (SETS, IDS),
             "history_depth_and_plotly_policy": plan,
+            "two_partitioners (round 5)": "system PartitionerPair: two partitioner objects in one process, operation lists a = [build, fill, "
+            "fill (reset F/T)] and b = [build, fill (reset F/T)] over the point sets %s in 1-D and 2-D, all 10 interleavings, "
+            "count_ubound/lbound (1, 0.25) and (2, 2e-10): %d programs per configuration; after every operation the read-outs (leaf "
+            "counts of every filled id, kl_distance of every ordered pair) of BOTH objects must equal bit for bit those of the same "
+            "object run alone; every program and every solo run starts from a pristine process state"
+            % (sorted(PAIR_POINTS[1]) if tier != "quick" else ["hi", "lo", "mid"], len(_pair_programs(tier))),
             "kl_and_plotly_checks": "kl_distance is evaluated for every ordered id pair involving the filled id whose "
             "leaf-count pair was not yet evaluated on this tree; to_plotly_dataframe after every build, after the "
             "first shift-fill (policy min) or, in histories of length <= 2, for every unseen (reference, test) node-count pair (policy full)",
